@@ -232,8 +232,12 @@ def _go(ctx, beh):
         return goenv.run_harness(ctx, PKG, "^TestVerifC04qr$", inputs=beh, timeout=2400, parallel=4, env={"VERIF_C04QR_WORKERS": 4})
 
     def sig(e):
+        if not any(f in e.log for f in _OWN):
+            return None
+        if "VFSTALL" in e.log:
+            return "stall"
         m = re.search(r"^panic: (.*)$", e.log, re.M)
-        if not m or not any(f in e.log for f in _OWN):
+        if not m:
             return None
         return "deadlock" if "deadlock" in m.group(1) else "panic"
     try:
@@ -246,8 +250,8 @@ def _go(ctx, beh):
             once()
         except HarnessCrash as e2:
             if sig(e2) == k:
-                m = re.search(r"^panic: (.*)$", e2.log, re.M)
-                what = "the harness process died twice: %s in the code under test (%s)" % (k, m.group(1)[:200])
+                m = re.search(r"^(?:panic: |VFSTALL: )(.*)$", e2.log, re.M)
+                what = "the harness process died twice: %s in the code under test (%s)" % (k, m.group(1)[:200] if m else "")
                 return {"replayed": 0, "steps": 0, "distinct": 0, "samples": [], "extra": {"crashed": k}, "_rc": 0, "_log": e2.log[-3000:],
                         "mismatches": [{"class": "harness-crash:" + k, "what": what, "got": e2.log[-3000:], "walk": -1, "step": -1}]}
             raise
